@@ -75,7 +75,16 @@ pub fn classify(m: &SupportedMessage) -> Delivered {
 
 impl SubFix {
     pub fn new() -> SubFix {
-        let server = srv::worker_server(false);
+        Self::on(srv::worker_server(false))
+    }
+
+    /// on a server of its own: subscription ids (a server-wide counter) start at 1 again, so that they collide with the small
+    /// sequence numbers of other subscriptions
+    pub fn fresh() -> SubFix {
+        Self::on(std::sync::Arc::new(srv::server(&srv::SrvOpts::default())))
+    }
+
+    fn on(server: std::sync::Arc<Server>) -> SubFix {
         let mut conn = Conn::open(server.clone());
         let token = conn.session();
         let session = conn.session_object(&token).unwrap_or_else(|| harness_error("fixture session not registered"));
